@@ -103,13 +103,13 @@ Lemma palette_of_image_exact im k :
   (distinct_colors im <= N.max k 8)%N -> (sample_of im k < 2)%N ->
   exists pal, palette_of_image im k = Ok pal /\ forall c, In c (img_pixels im) -> In c pal.
 Proof.
-  intros Hi Hk Hd Hs. pose proof Hi as (Hne & Hw & Hr & Hok). unfold palette_of_image.
+  intros Hi Hk Hd Hs. pose proof Hi as (Hne & Hw & Hr & Hok & Hmax). unfold palette_of_image.
   assert (E1 : (img_height im =? 0)%N = false) by (unfold img_height; destruct im; [congruence|cbn [length]; lia]).
   assert (E2 : (img_width im =? 0)%N = false) by lia.
   assert (E3 : (k =? 0)%N = false) by lia.
   rewrite E1, E2, E3. cbn [orb]. unfold image_octree.
   assert (E4 : (sample_of im k <? 2)%N = true) by lia. rewrite E4.
-  destruct (palette_exact (img_pixels im) k (img_pixels_ok im Hok) Hd) as (t & pal & H1 & H2 & H3 & Hin).
+  destruct (palette_exact (img_pixels im) k (img_pixels_ok im Hok) Hmax Hd) as (t & pal & H1 & H2 & H3 & Hin).
   rewrite H1. cbn [bind]. rewrite H2. cbn [bind]. rewrite H3. cbn [bind]. destruct pal as [|p pal].
   - exfalso. destruct (img_pixels im) as [|c r] eqn:E.
     + pose proof (img_pixels_length im Hr) as HL. rewrite E in HL. cbn [length] in HL.
@@ -133,7 +133,7 @@ Theorem quantize_exact im k dither :
     Forall2 (Forall2 (fun p i => nth_error pal (N.to_nat i) = Some p)) im q.
 Proof.
   intros Hi Hk Hd Hs. destruct (palette_of_image_exact im k Hi Hk Hd Hs) as (pal & Hpal & Hin).
-  pose proof Hi as (Hne & Hw & Hr & Hok).
+  pose proof Hi as (Hne & Hw & Hr & Hok & Hmax).
   unfold quantize. rewrite Hpal. cbn [bind].
   set (Q := fun (p : rgb) (i : N) => nth_error pal (N.to_nat i) = Some p).
   assert (Hh : Forall (Forall (hits (kd_find (build pal)) Q)) im).
